@@ -409,6 +409,10 @@ func runArith(o *Options, res *Result, rng *RNG) {
 		if litB {
 			bText = strconv.FormatFloat(vb, 'f', -1, 64)
 			fb = vb
+			if vb == math.Trunc(vb) && vb < 1e6 && rng.Chance(30) {
+				// zero-padded decimal literal: still decimal
+				bText = "0" + strconv.FormatFloat(vb, 'f', -1, 64)
+			}
 		}
 		isMinMax := op.Name == "math::max" || op.Name == "math::min"
 		switch {
@@ -603,6 +607,15 @@ func runTime(o *Options, res *Result, rng *RNG) {
 			continue
 		}
 		obs := Render(key, ctx)
+		if kind == 0 && obs.ErrClass() == "OK" {
+			// the caller's time value was handed over by pointer: a second render must agree
+			if again := Render(key, ctx); string(again.Out) != string(obs.Out) {
+				res.OracleFails++
+				res.AddViolation(&Violation{Kind: "failing-input", Class: "time:caller-value-modified",
+					What:   fmt.Sprintf("%s with t handed over as *time.Time: the first render prints %q, a second render with the same variable prints %q", src, obs.Out, again.Out),
+					Replay: map[string]any{"template": src, "instant": inst.String(), "first": string(obs.Out), "second": string(again.Out)}})
+			}
+		}
 		if obs.ErrClass() == "OK" && string(obs.Out) == want {
 			res.Distinct(src + fmt.Sprint(sec, kind))
 			continue
